@@ -67,9 +67,12 @@ impl<'de> Deserialize<'de> for Transaction {
                 serde_json::from_value(json.into()).map_err(de::Error::custom)?,
             ))
         } else {
-            Ok(Transaction::Legacy(
-                serde_json::from_value(json.into()).map_err(de::Error::custom)?,
-            ))
+            let tx: LegacyTransaction =
+                serde_json::from_value(json.into()).map_err(de::Error::custom)?;
+            if tx.chain_id > Some((ethnum::U256::MAX - 36) / 2) {
+                return Err(de::Error::custom("chain ID too large for EIP-155"));
+            }
+            Ok(Transaction::Legacy(tx))
         }
     }
 }
